@@ -180,7 +180,8 @@ func (vm *vm) run() error {
 				}
 				push(strings.Repeat(a, b))
 
-			case instr == opEQ:
+			case instr == opEQ && !(isBlock(peek(1)) && isBlock(peek(0))):
+				// blocks hold maps and are not comparable to each other
 				b, a := pop(), pop()
 				push(a == b)
 
